@@ -376,6 +376,14 @@ theorem untilColon_safe : Safe untilColon := by
 
 macro_rules | `(tactic| safe_side) => `(tactic| with_reducible exact untilColon_safe)
 
+theorem untilFilter_safe (f : UInt8 → Bool) : Safe (untilFilter f) := by
+  intro L base n s h
+  unfold untilFilter
+  rw [wp_bind]; apply wp_getS; dsimp only
+  split <;> repeat wp_step
+
+macro_rules | `(tactic| safe_side) => `(tactic| with_reducible exact untilFilter_safe _)
+
 theorem contigField_safeS (d : Nat) (f : Fields) : SafeS L (contigField d f) := by
   unfold contigField; wps_run
 
